@@ -164,7 +164,7 @@ class Model:
         return self._res(self.q("wrecv %s %s" % (side, hx(msg))))
 
     def hrecv(self, side, declared, actual, fixed=False):
-        return self._res(self.q("%s %s %d %s" % ("hfixed" if fixed else "hrecv", side, declared, hx(actual))))
+        return self._res(self.q("%s %s %d %s" % ("hlim" if fixed else "hrecv", side, declared, hx(actual))))
 
 
 S = "S%d" % MAXREQ
@@ -181,8 +181,12 @@ class Gen:
         self.quick = ctx.tier == "quick"
         self.cases = []
         self.nbar = 0
+        self.pool = False       # while set, every case added runs against servers with a worker pool
 
     def add(self, c):
+        if self.pool:
+            c["pool"] = True
+            c["kind"] += "+pool"
         c["id"] = len(self.cases) + 1
         self.cases.append(c)
         return c
@@ -236,10 +240,10 @@ class Gen:
             base += [16384, 65536 * 3, (1 << 20) - 1, 1 << 20, (1 << 20) + 1, 4 << 20, (4 << 20) + 13]
         return base
 
-    def fam_calls(self, t):
+    def fam_calls(self, t, parts=("sequential", "wire", "parallel", "oversize")):
         lens = self.lens(t)
         items, meta = [], []
-        for k, L in enumerate(lens):
+        for k, L in enumerate(lens if "sequential" in parts else []):
             R = lens[(k * 7 + 3) % len(lens)]
             kinds = self.KINDS if L <= 4096 else [self.KINDS[k % len(self.KINDS)]]
             for j, kind in enumerate(kinds):
@@ -254,9 +258,10 @@ class Gen:
                     continue
                 items.append({"req": hx(req), "resp": hx(resp)})
                 meta.append((req, resp))
-        self.add({"op": "calls", "t": t, "fam": "calls", "kind": "sequential", "items": items, "_items": meta})
+        if items:
+            self.add({"op": "calls", "t": t, "fam": "calls", "kind": "sequential", "items": items, "_items": meta})
         # wire capture (relay between the real client and the real server): sizes kept moderate
-        if t in ("tcp", "unix", "udp"):
+        if t in ("tcp", "unix", "udp") and "wire" in parts:
             items, meta = [], []
             for k, L in enumerate([x for x in lens if x <= 70000][:24]):
                 req = self.content(L, self.KINDS[(k + 1) % len(self.KINDS)])
@@ -267,6 +272,23 @@ class Gen:
                 items.append({"req": hx(req), "resp": hx(resp)})
                 meta.append((req, resp))
             self.add({"op": "calls", "t": t, "fam": "calls", "kind": "wire", "wire": True, "items": items, "_items": meta})
+        # UDP: bodies that do not fit one datagram are refused (request) or answered by an error
+        # frame (response) - never cut to size, and the connection stays usable
+        if t == "udp" and "oversize" in parts:
+            meta, experr, undeliv = [], set(), set()
+            for k, (rl, pl) in enumerate([(5, 5), (65500, 3), (9, 9), (70000, 3), (10, 65500), (11, 11), (12, 70000), (65499, 65499)]):
+                req, resp = bytes([k]) + self.rand(rl - 1), bytes([k]) + self.rand(pl - 1)
+                if self.m.q("utransport 1 " + hx(req)) == "refused":
+                    experr.add(k)
+                    undeliv.add(k)
+                elif self.m.urun("C", [unhx(self.m.q("ureply 1 " + hx(resp)))], fixed=True)[0][0] != "D":
+                    experr.add(k)
+                meta.append((req, resp))
+            self.add({"op": "calls", "t": t, "fam": "calls", "kind": "oversize", "fresh": True,
+                      "items": [{"req": hx(a), "resp": hx(b)} for a, b in meta], "_items": meta,
+                      "_experr": experr, "_undeliv": undeliv})
+        if "parallel" not in parts:
+            return
         # many calls in flight on one connection
         items, meta = [], []
         for k in range(48 if (self.quick or t == "udp") else 160):   # udp: stay within the socket buffers
@@ -395,7 +417,7 @@ class Gen:
         s = b"SECRET-OF-CLIENT-ONE/"
         return (s * (n // len(s) + 1))[:n]
 
-    def udp_case(self, dgrams, kind):
+    def udp_case(self, dgrams, kind, pipelined=False):
         """dgrams: list of (from_socket, bytes, payload_if_well_formed_else_None).  The first one is
         always a well-formed 'fill' from the other client covering every buffer byte the case can
         reach, which makes the model's zero-buffer run and the server's real buffer agree."""
@@ -406,7 +428,7 @@ class Gen:
         mres = self.m.urun(S, [d for _, d, _ in dgrams])
         mfix = self.m.urun(S, [d for _, d, _ in dgrams], fixed=True)
         return self.add({"op": "raw_udp", "t": "udp", "fam": "raw_udp", "kind": kind, "_mfix": mfix,
-                         "dgrams": [{"from": f, "data": hx(d), "wait_ms": 400 if p is not None else 0} for f, d, p in dgrams],
+                         "dgrams": [{"from": f, "data": hx(d), "wait_ms": 400 if (p is not None and not pipelined) else 0} for f, d, p in dgrams],
                          "barrier": hx(barrier), "barrier_resp": hx(bresp),
                          "expect_deliveries": sum(1 for r in (mfix if "udp" in self.repaired else mres) if r[0] == "D"),
                          "_dgrams": dgrams, "_mres": mres})
@@ -498,7 +520,8 @@ class Gen:
         self.ws_case([("bin", self.m.wmake(11) + inner), ("bin", self.m.wmake(12) + self.m.smake(5, 1) + b"hello")], "lookalike")
 
     # ---- F5: raw HTTP -> real HTTP servers
-    def http_case(self, t, declared, body, kind, chunked=False):
+    def http_case(self, t, declared, body, kind, chunked=False, mx=None):
+        side = S if mx is None else "S%d" % mx
         if chunked:
             wire = b""
             rest = body
@@ -513,9 +536,10 @@ class Gen:
             wire = body
             head = b"POST / HTTP/1.1\r\nHost: hv\r\nContent-Length: %d\r\n\r\n" % declared
         limited = body if declared < 0 else body[:declared]     # net/http never reads past Content-Length
-        mres = self.m.hrecv(S, declared if not chunked else -1, limited, fixed=(t == "fasthttp"))
-        mfix = self.m.hrecv(S, declared if not chunked else -1, limited, fixed=True)
+        mres = self.m.hrecv(side, declared if not chunked else -1, limited, fixed=(t == "fasthttp"))
+        mfix = self.m.hrecv(side, declared if not chunked else -1, limited, fixed=True)
         return self.add({"op": "raw_http", "t": t, "fam": "raw_http", "kind": kind, "_mfix": mfix,
+                         "max": mx or 0, "_max": mx or MAXREQ,
                          "chunks": [hx(head + wire)], "close": "write" if declared > len(body) else "", "wait_ms": 3000,
                          "expect_deliveries": 1 if (mfix if "http" in self.repaired else mres)[0] == "D" else 0,
                          "_declared": declared, "_body": body, "_mres": mres})
@@ -533,6 +557,14 @@ class Gen:
         for d, a in [(2, 5), (0, 3), (255, 256), (4096, 5000)]:
             self.http_case(t, d, self.rand(a), "decl_lt")
         self.http_case(t, MAXREQ + 1, b"x", "too_large")
+        # a lowered MaxRequestLength: bodies around the limit, with and without Content-Length -
+        # the service gets the whole body or nothing, never its first `limit` bytes
+        for mx in ([1000] if q else [64, 1000, 4096]):   # not below the executor's own health-call size
+            for L in sorted({max(0, mx - 1), mx, mx + 1, mx + 2, 2 * mx, 4 * mx, 4 * mx + 3}):
+                body = self.content(L, r.choice(["rand", "hdr_http", "ff"]))
+                self.http_case(t, -1, body, "small_limit_chunked", chunked=True, mx=mx)
+                self.http_case(t, L, body, "small_limit_declared", mx=mx)
+            self.http_case(t, mx, self.rand(mx + 5), "small_limit_decl_lt", mx=mx)
 
     # ---- F6: fake servers -> real client (response direction)
     def fake_stream_case(self, t, reply_chunks, kind, intended, end="close", gap=0):
@@ -678,6 +710,40 @@ class Gen:
             self.fake_http_case(t, d, b, "decl_lt", b[:d])
         self.fake_http_case(t, 5, b"nope!", "status", None, status=b"500 Internal Server Error")
 
+    def fam_pool(self, streams):
+        """the delivery families again with Handler.Pool set (a bounded queue, slow workers): tasks
+        run after the receive loop has read later frames of the same connection"""
+        r = self.rng
+        self.pool = True
+        try:
+            for t in streams + ["udp", "ws"]:
+                self.fam_calls(t, parts=("parallel", "wire") if self.quick else ("sequential", "parallel", "wire"))
+            for t in streams:
+                self.stream_case(t, [("frame", k, b"message-%d" % k) for k in range(1, 6)], "pipelined", close=False)
+                for rep in range(2 if self.quick else 6):
+                    segs = []
+                    for k in range(40 if self.quick else 150):
+                        L = r.choice([0, 0, 1, 2, 11, 12, 13, 24, 100, 255, 256, 1000])
+                        segs.append(("frame", k + 1, bytes([k & 0xff]) + self.content(L, self.KINDS[k % len(self.KINDS)])))
+                    self.stream_case(t, segs, "many_one_write", close=False)
+                    self.stream_case(t, segs[:15], "many_random_chunks", chunking="random", close=False)
+                    self.stream_case(t, segs[:9] + [("broken", self.rand(12))], "many_then_noise")
+            for rep in range(2 if self.quick else 6):
+                dg = [(k % 2, self.m.umake(len(b), k + 1) + b, b)
+                      for k, b in ((k, b"message-%d/" % k + self.rand(r.choice([0, 1, 20, 300]))) for k in range(30))]
+                self.udp_case(dg, "pipelined", pipelined=True)
+            for rep in range(2 if self.quick else 6):
+                msgs = [("bin", self.m.wmake(k + 1) + b"message-%d/" % k + self.content(r.choice([0, 1, 4, 125, 126, 300]), self.KINDS[k % 7]))
+                        for k in range(30)]
+                self.ws_case(msgs, "many")
+        finally:
+            self.pool = False
+
+    def fam_index_run(self):
+        """one connection, calls numbered past the point where the 15-bit request index wraps"""
+        n = 33000 if self.quick else 66000
+        self.add({"op": "udp_index_run", "t": "udp", "fam": "index_run", "kind": "wrap", "n": n, "_n": n})
+
     def all(self):
         q = self.quick
         self.fam_crc()
@@ -697,6 +763,8 @@ class Gen:
         self.fam_fake_ws()
         for t in https:
             self.fam_fake_http(t)
+        self.fam_pool(streams)
+        self.fam_index_run()
         return self.cases
 
 
@@ -760,8 +828,21 @@ def eval_case(m, c, o):
     if fam == "calls":
         t = c["t"]
         items = c["_items"]
+        experr, undeliv = c.get("_experr", set()), c.get("_undeliv", set())
         for k, ((req, resp), co) in enumerate(zip(items, o["calls"])):
             want = resp if resp else RNZ
+            if k in experr or max(len(req), len(resp)) > 65499 and t == "udp":
+                # model: refused / answered by an error frame.  property: an error, never a cut body
+                if not co.get("err"):
+                    if k in experr:
+                        v.dis("model: call %d (request %d, response %d bytes) fails; the caller received %s"
+                              % (k, len(req), len(resp), co.get("resp", "")[:40]))
+                    if co.get("resp") != enc(want):
+                        v.bad("oversize-body-cut", "udp call %d: request %d bytes, response %d bytes: the caller received %s"
+                              % (k, len(req), len(resp), co.get("resp", "")[:60]))
+                elif k not in experr:
+                    v.dis("model: call %d succeeds, observed error %s" % (k, co["err"][:80]))
+                continue
             if co.get("err"):
                 if co["err"].startswith("ENV:"):
                     v.env = co["err"]
@@ -776,7 +857,7 @@ def eval_case(m, c, o):
                 v.bad("response-not-exact", "%s call %d: service produced %s, caller received %s"
                       % (t, k, short(want), co.get("resp", "")[:60]))
         skipped = [k for k, co in enumerate(o["calls"]) if co.get("err", "").startswith("SKIPPED")]
-        want = msorted(enc(r) for k, (r, _) in enumerate(items) if k not in skipped)
+        want = msorted(enc(r) for k, (r, _) in enumerate(items) if k not in skipped and k not in undeliv)
         if msorted(delivered) != want and not (skipped and v.oracle):
             extra = surplus(delivered, want)
             v.bad("request-not-exact", "%s: requests handed to the service differ from the requests submitted "
@@ -818,7 +899,7 @@ def eval_case(m, c, o):
             extra = surplus(delivered, want)
             if extra:
                 v.bad("delivered-from-inconsistent-frame",
-                      "%s %s: the service was handed %s which no well-formed frame of the stream carries"
+                      "%s %s: the service was handed %s, which no well-formed frame of the stream carries (or more often than the stream carries it)"
                       % (t, c["kind"], extra[0][:60]))
             else:
                 if o.get("timeout"):
@@ -931,12 +1012,12 @@ def eval_case(m, c, o):
         v.disagree += against(mres)
         # property: the body is the bytes sent (HTTP framing: at most Content-Length of them);
         # a body that stops short of its declared length must not reach the service
-        if declared > len(body):
-            allowed = []
-        elif declared > MAXREQ:
+        mx = c.get("_max", MAXREQ)
+        eff = body if declared < 0 else body[:declared]
+        if declared > len(body) or declared > mx or len(eff) > mx:
             allowed = []
         else:
-            allowed = [enc(body if declared < 0 else body[:declared])]
+            allowed = [enc(eff)]
         if delivered != allowed:
             if delivered:
                 v.bad("delivered-from-inconsistent-request",
@@ -954,6 +1035,36 @@ def eval_case(m, c, o):
                 dbytes = None if delivered[0].startswith("sha1:") else unhx(delivered[0])
             if dbytes is not None and o.get("got") != enc(dresp(dbytes)):
                 v.bad("response-not-exact", "%s: answer body is not the answer to the delivered request" % t)
+        return v
+
+    if fam == "index_run":
+        n = c["_n"]
+        if o.get("fails") or o.get("ok_count") != n:
+            if any("deadline" in f or "timeout" in f.lower() for f in o.get("fails", [])):
+                v.inconclusive.append("call timeout")
+            v.bad("call-unanswered", "udp, one connection: %d of %d sequential calls answered with their own answer; %s"
+                  % (o.get("ok_count", 0), n, "; ".join(o.get("fails", []))[:300]))
+        done = o.get("done", 0)
+        sent = unhx(o.get("c2s_hdrs"))
+        back = unhx(o.get("s2c_hdrs"))
+        hs = [sent[i:i + 8] for i in range(0, len(sent), 8)]
+        hb = [back[i:i + 8] for i in range(0, len(back), 8)]
+        if len(hs) != done:
+            v.dis("%d request datagrams seen for %d calls" % (len(hs), done))
+        for k, h in enumerate(hs, 1):
+            idx = int(m.q("cidx udp %d" % k))
+            if h != m.umake(4, idx):
+                v.dis("request %d: the client framed %s, the model (index %d = counter & 0x7fff) %s" % (k, h.hex(), idx, m.umake(4, idx).hex()))
+                break
+        for k, h in enumerate(hb, 1):
+            idx = int(m.q("cidx udp %d" % k))
+            if h != m.umake(6, idx):
+                v.dis("answer %d: the server framed %s, the model %s" % (k, h.hex(), m.umake(6, idx).hex()))
+                break
+        want = hashlib.sha1(b"".join(k.to_bytes(4, "big") for k in range(1, done + 1))).hexdigest()
+        if o.get("delivered_n") != done or o.get("delivered_sha1") != want:
+            v.bad("request-not-exact", "udp: the %d requests handed to the service are not the %d requests submitted, in order"
+                  % (o.get("delivered_n", 0), done))
         return v
 
     if fam in ("fake_stream", "fake_udp", "fake_ws", "fake_http"):
